@@ -245,8 +245,10 @@ def stereo_mol_graph_to_rdmol(
             rd_atom.SetChiralTag(Chem.ChiralType.CHI_TRIGONALBIPYRAMIDAL)
             if a_stereo.parity is not None:
 
+                # the permutation labels describe the parity -1 ordering
+                # (see RDMol2StereoMolGraph)
                 atoms_order = (a_stereo._inverted_atoms()
-                               if a_stereo.parity == -1 else a_stereo.atoms)
+                               if a_stereo.parity == 1 else a_stereo.atoms)
                 rd_id_order = tuple([map_num_idx_dict[a]
                                      for a in atoms_order[1::]])
                 rd_nbr_order = tuple([nbr.GetIdx() for nbr in rd_atom.GetNeighbors()])
